@@ -257,9 +257,20 @@ pub fn run(input: &str, output: &str, thorough: bool) -> Value {
 				}
 		};
 		let n = w.ops.len();
+		// a case may ask for the cuts of its LAST m operations only (plus every 16th earlier operation boundary): large directed
+		// tile sets whose point is the end of the sequence (index, final header)
+		let only_last = case.get("only_last_ops").and_then(|m| m.as_u64()).map(|m| m as usize);
 		for k in 0..=n {
 			let mut bs = vec![0usize];
-			if k < n {
+			if let Some(m) = only_last {
+				if k + m < n {
+					if k % 16 != 0 {
+						continue;
+					}
+				} else if k < n {
+					bs.extend(cuts_of(&w.ops[k], thorough));
+				}
+			} else if k < n {
 				bs.extend(cuts_of(&w.ops[k], thorough));
 			}
 			for b in bs {
@@ -279,7 +290,7 @@ pub fn run(input: &str, output: &str, thorough: bool) -> Value {
 		// the same prefixes once more through the REAL file writer, on a path that already holds a complete container of
 		// another tile set (a conversion started over an existing file and interrupted): every 8th case
 		if let Some(old) = prev_final.get(&src.fmt) {
-			if ci % 8 == 0 {
+			if ci % 8 == 0 && only_last.is_none() {
 				let path = scratch.join(format!("over.{}", src.fmt));
 				for k in 0..=n {
 					std::fs::write(&path, old).unwrap();
